@@ -99,6 +99,10 @@ MUTANTS = {
         ('leeway-ms', 'dashlive/mpeg/dash/timing.py', 'self.leeway = datetime.timedelta(seconds=options.leeway)', 'self.leeway = datetime.timedelta(milliseconds=options.leeway)'),
     ],
     'C11': [
+        ('pro-length-field', 'dashlive/drm/playready.py', "        pro = struct.pack('<IH', len(record) + 6, 1) + record", "        pro = struct.pack('<IH', len(record), 1) + record"),
+        ('pro-record-length', 'dashlive/drm/playready.py', "        record = struct.pack('<HH', 0x001, len(wrm)) + wrm", "        record = struct.pack('<HH', 0x001, len(wrm) + 4) + wrm"),
+        ('pro-parse-header-size', 'dashlive/drm/playready.py', "        data = src.read(6)\n        if len(data) != 6:", "        data = src.read(8)\n        if len(data) != 8:"),
+        ('pro-record-type', 'dashlive/drm/playready.py', "            if record_type == 1:\n                prh = src.read(record_length)", "            if record_type == 2:\n                prh = src.read(record_length)"),
         ('wrm-default-first', 'dashlive/drm/playready.py', "        default_keypair = keys[default_kid.lower()]", "        default_keypair = list(keys.values())[0]"),
         ('wrm-kid-raw', 'dashlive/drm/playready.py', "            kids.append({\n                'kid': guid_kid,", "            kids.append({\n                'kid': keypair.KID.raw,"),
         ('wrm-template', 'dashlive/drm/playready.py', "template_name = f'drm/wrmheader{int(header_version * 10)}.xml'", "template_name = f'drm/wrmheader{int(header_version) * 10}.xml'"),
